@@ -497,8 +497,13 @@ class Unit:
             if d.kind == 'loop':
                 args = d.arg.split()
                 kx = int(args[0])
-                if kx < 1 or kx > len(loops):
-                    raise Maintenance('%s: //@loop %d but the source has %d loop(s)' % (qual, kx, len(loops)))
+                if kx < 1:
+                    raise Maintenance('%s: //@loop %d' % (qual, kx))
+                if kx > len(loops):
+                    # the source has fewer loops than the unit annotates (a loop was replaced by straight-line code): a loop that is
+                    # not there needs no invariant; the function's contract is checked all the same
+                    info.setdefault('skipped_loop_annotations', []).append('%s: //@loop %d skipped: the source has %d loop(s) (unit line %d)' % (qual, kx, len(loops), d.line))
+                    continue
                 kw = loops[kx - 1]
                 bo = X.loop_body_open(item, kw, p['body_end'])
                 for a in args[1:]:
@@ -526,8 +531,11 @@ class Unit:
                     ins(p['body_end'], body)
                 elif w in ('loop_body_start', 'loop_body_end', 'before_loop', 'after_loop'):
                     kx = int(rest)
-                    if kx < 1 or kx > len(loops):
-                        raise Maintenance('%s: //@at %s %d but the source has %d loop(s)' % (qual, w, kx, len(loops)))
+                    if kx < 1:
+                        raise Maintenance('%s: //@at %s %d' % (qual, w, kx))
+                    if kx > len(loops):
+                        info.setdefault('skipped_loop_annotations', []).append('%s: //@at %s %d skipped: the source has %d loop(s) (unit line %d)' % (qual, w, kx, len(loops), d.line))
+                        continue
                     kw = loops[kx - 1]
                     bo = X.loop_body_open(item, kw, p['body_end'])
                     bc = match_close(item, bo)
